@@ -526,7 +526,10 @@ pub fn det_s() -> BoxedStrategy<DetCase> {
     // only uses of a macro whose body holds several jumps, all to undefined labels: every jump of one use is recorded
     // at the position of that use, so the order among them is not decided by the position
     let multi = proptest::collection::vec((any::<u16>(), 11u8..14), 1..3);
-    (crate::c14::raw_s(), prop_oneof![4 => general, 1 => multi], any::<bool>(), 0u8..12)
+    // a circle of three or four macros, a circle of two entered through a third: whatever the diagnostic says about the
+    // macros involved, it says the same in every run
+    let cycles = proptest::collection::vec((any::<u16>(), 16u8..20), 1..3);
+    (crate::c14::raw_s(), prop_oneof![8 => general, 2 => multi, 1 => cycles], any::<bool>(), 0u8..12)
         .prop_map(|(raw, errors, interpreted, stdin_lines)| DetCase { raw, errors, interpreted, stdin_lines })
         .boxed()
 }
@@ -553,6 +556,10 @@ pub fn det_source(c: &DetCase) -> String {
             // ordinary labels that spell start in another case, next to the real start (labels are case sensitive)
             15 => format!("START:\nmov dl, 36\nmov ah, 2\nint 0x21\nStart:\nmov dl, 37\nint 0x21\nsTart{}:", k),
             6 => format!("dup_{}: nop\ndup_{}: nop", k, k),
+            16 => "cy_a(ax)".to_string(),
+            17 => "cy_in(bx)".to_string(),
+            18 => "cy_w(cx)".to_string(),
+            19 => "cy_b(dx)".to_string(),
             _ => "mov ax, 70000".to_string(),
         };
         // top level only (a label definition may not be valid inside every context)
@@ -584,6 +591,22 @@ pub fn det_source(c: &DetCase) -> String {
         lines.push("int 0x21".to_string());
         lines.push("sTART:".to_string());
         lines.push("print reg".to_string());
+    }
+    if c.errors.iter().any(|(_, k)| *k >= 16 && *k <= 19) {
+        for d in [
+            "macro cy_a(r) -> inc r cy_b(r) <-",
+            "macro cy_b(r) -> dec r cy_c(r) <-",
+            "macro cy_c(r) -> neg r cy_a(r) <-",
+            "macro cy_in(r) -> not r cy_p(r) <-",
+            "macro cy_p(r) -> inc r cy_q(r) <-",
+            "macro cy_q(r) -> dec r cy_p(r) <-",
+            "macro cy_w(r) -> cy_x(r) <-",
+            "macro cy_x(r) -> cy_y(r) <-",
+            "macro cy_y(r) -> cy_z(r) <-",
+            "macro cy_z(r) -> cy_w(r) <-",
+        ] {
+            lines.insert(first_code, d.to_string());
+        }
     }
     if c.errors.iter().any(|(_, k)| *k >= 8 && *k <= 13) {
         lines.insert(first_code, "macro jq9(t) -> jmp t <-".to_string());
@@ -645,6 +668,9 @@ pub fn eval_det(c: &DetCase) -> CaseOutcome {
     }
     if c.errors.is_empty() {
         classes.push("c19/determinism-valid-program".into());
+    }
+    if c.errors.iter().any(|(_, k)| *k >= 16 && *k <= 19) && first.out_str().to_lowercase().contains("recursive") {
+        classes.push("c19/determinism-macro-circle-reported".into());
     }
     CaseOutcome::Pass { nontrivial: c.errors.len() >= 2, classes, digest: fnv_str(&src) }
 }
@@ -781,6 +807,7 @@ pub fn run(ctx: &Ctx) {
     ctx.require_class("c19/determinism-valid-program", 20);
     ctx.require_class("c19/determinism-several-undefined-labels-from-one-macro", 15);
     ctx.require_class("c19/determinism-several-undefined-labels-from-one-macro-use", 15);
+    ctx.require_class("c19/determinism-macro-circle-reported", 10);
     ctx.require_class("c19/parser-history-same-macro-names-other-bodies", 100);
 }
 
